@@ -87,6 +87,8 @@ class ExprMixin:
             if self.spec:
                 raise ContractError("unknown name %r in a specification" % node.id)
             return self.raise_(st, 'NameError')
+        if v.__class__.__name__ == 'VPoison':
+            raise Unsupported("read of the loop-scratch variable %s before it is assigned (line %s)" % (node.id, node.lineno))
         if isinstance(v, VUnb):
             return self.guard(st, v.bound, 'NameError', 'unbound', node, lambda s: k(s, v.val))
         return k(st, v)
@@ -210,6 +212,11 @@ class ExprMixin:
         return self.ev(node.value, st, with_val)
 
     def do_index(self, v, i, st, node, k):
+        if isinstance(v, VOpt):
+            if self.spec:
+                return self.do_index(v.inner, i, st, node, k)
+            return self.guard(st, z3.Not(v.isnone), 'TypeError', 'none-subscript', node,
+                              lambda s: self.do_index(v.inner, i, s, node, k))
         if isinstance(v, VTup):
             c = self.const_int(i)
             if c is None:
@@ -253,6 +260,11 @@ class ExprMixin:
             vals.append(next(it) if p is not None else None)
         lo, hi, step = vals
         stepc = 1 if step is None else self.const_int(step)
+        if isinstance(v, VOpt):
+            if self.spec:
+                return self.do_slice(v.inner, parts, vs, st, node, k)
+            return self.guard(st, z3.Not(v.isnone), 'TypeError', 'none-slice', node,
+                              lambda s: self.do_slice(v.inner, parts, vs, s, node, k))
         if isinstance(v, VTup):
             loc = None if lo is None else self.const_int(lo)
             hic = None if hi is None else self.const_int(hi)
